@@ -209,6 +209,8 @@ class AddressBase(Base):
             self._line_addrgroup(line)
         else:
             raise ValueError(f"invalid address {line=}")
+        if self._type != "addrgroup":
+            self._items = []  # items are addresses of address group
 
     @property
     def platform(self) -> str:
